@@ -592,43 +592,70 @@ func c18everyAttemptCounted(c *Ctx) {
 // c18selectCommitsLast (R18.7): a failed SELECT / EXAMINE leaves the session unselected.
 func c18selectCommitsLast(c *Ctx) {
 	P, R := c.P, c.R
-	R.Explain("R18.7", "the selected state is entered last: in State.Select and State.Examine, after the store that installs the new snapshot (State.snap = snap) the only return that can be reached is the one returning the result of the caller's callback; an error return after the store would answer NO to SELECT while the session already counts as selected, so that selected-state commands are served although no mailbox was selected.")
+	R.Explain("R18.7", "the selected state is entered last: in State.Select and State.Examine (or the helper of the package that does it for them), after the store that installs the new snapshot (State.snap = snap) the only return that can be reached is the one returning the result of the caller's callback; an error return after the store would answer NO to SELECT while the session already counts as selected, so that selected-state commands are served although no mailbox was selected.")
 	snapFld := c.fieldOf("internal/state", "State", "snap")
 	n := 0
+	judged := map[*ssa.Function]bool{}
 	for _, name := range []string{"internal/state.(*State).Select", "internal/state.(*State).Examine"} {
-		f := c.fn("R18.7", name)
-		if f == nil {
+		top := c.fn("R18.7", name)
+		if top == nil {
 			continue
 		}
-		for _, b := range f.Blocks {
-			for _, in := range b.Instrs {
-				st, ok := in.(*ssa.Store)
-				if !ok || !fieldAddrIs(st.Addr, snapFld) || engine.IsNilConst(st.Val) {
-					continue
-				}
-				n++
-				bad := ""
-				for _, ret := range engine.Returns(f) {
-					if !engine.InstrReaches(st, ret) {
+		for _, f := range c.withPackageHelpers(top, "internal/state", 1) {
+			if f.Parent() != nil {
+				continue
+			}
+			for _, b := range f.Blocks {
+				for _, in := range b.Instrs {
+					st, ok := in.(*ssa.Store)
+					if !ok || !fieldAddrIs(st.Addr, snapFld) || engine.IsNilConst(st.Val) {
 						continue
 					}
-					// allowed: `return fn(...)` - the result of calling a function-typed parameter
-					lr := engine.LastResult(ret)
-					okRet := false
-					if call, isCall := lr.(*ssa.Call); isCall {
-						if _, isParam := call.Call.Value.(*ssa.Parameter); isParam && !call.Call.IsInvoke() {
+					n++ // counted once per entry point that reaches the installation
+					if judged[f] {
+						continue
+					}
+					bad := ""
+					for _, ret := range engine.Returns(f) {
+						if !engine.InstrReaches(st, ret) {
+							continue
+						}
+						// allowed: `return fn(...)` - the result of calling a function-typed parameter
+						lr := engine.LastResult(ret)
+						okRet := false
+						if call, isCall := lr.(*ssa.Call); isCall {
+							if _, isParam := call.Call.Value.(*ssa.Parameter); isParam && !call.Call.IsInvoke() {
+								okRet = true
+							}
+						}
+						if engine.IsNilConst(lr) {
 							okRet = true
 						}
+						if !okRet {
+							bad = P.Pos(ret.Pos())
+						}
 					}
-					if engine.IsNilConst(lr) {
-						okRet = true
+					if f != top && bad == "" {
+						// installed by a helper: Select/Examine must hand the helper's result on unchanged
+						for _, cs := range engine.Calls(top) {
+							if cs.Common().StaticCallee() != f || cs.Instr.Parent() != top {
+								continue
+							}
+							for _, ret := range engine.Returns(top) {
+								if !engine.InstrReaches(cs.Instr, ret) {
+									continue
+								}
+								lr := engine.LastResult(ret)
+								if lr != cs.Instr.Value() && !engine.IsNilConst(lr) {
+									bad = P.Pos(ret.Pos())
+								}
+							}
+						}
 					}
-					if !okRet {
-						bad = P.Pos(ret.Pos())
-					}
+					R.Check(bad == "", "R18.7", c.name(f)+"|snapshot installed last", P.Pos(st.Pos()), "no failure return after the snapshot is installed", "after State.snap is set an error return ("+bad+") is still reachable: SELECT/EXAMINE is answered NO but the session is treated as selected")
 				}
-				R.Check(bad == "", "R18.7", c.name(f)+"|snapshot installed last", P.Pos(st.Pos()), "no failure return after the snapshot is installed", "after State.snap is set an error return ("+bad+") is still reachable: SELECT/EXAMINE is answered NO but the session is treated as selected")
 			}
+			judged[f] = true
 		}
 	}
 	R.Min("R18.7", "snapshot installations in Select/Examine", n, 2)
